@@ -60,6 +60,7 @@ type InMsg struct {
 	PadLen   int       `json:"pad_len,omitempty"` // BodyLength written with this many leading zeros (the same number, another legal spelling)
 	Damage   string    `json:"damage,omitempty"`  // "", "checksum", "checksum-spelling", "bodylength", "bodylength-extreme", "leading-field", "trailing-field", "truncate", "no-msgtype"
 	DamageBy int       `json:"damage_by,omitempty"`
+	Sloppy   bool      `json:"sloppy,omitempty"` // the peer does not compute CheckSums: it writes 000 (fine for a session whose configured unmarshaller tolerates that)
 	Note     string    `json:"note,omitempty"`
 }
 
@@ -153,6 +154,9 @@ func (m *InMsg) Bytes() []byte {
 		if b[len(b)-8] != ref.SOH {
 			b = append(append([]byte(nil), b[:len(b)-7]...), append([]byte{ref.SOH}, b[len(b)-7:]...)...)
 		}
+	}
+	if m.Sloppy && m.Damage == "" {
+		copy(b[len(b)-4:len(b)-1], "000")
 	}
 	return b
 }
